@@ -390,3 +390,23 @@ Example C12_source_ts_read_runs :
                     (VInt SBDF_ERROR_OUT_OF_MEMORY, Some VUndef, Some (VHeap [Some [VNull; VInt 2; VNull]; None; None; None; None; None]))
    | _ => False end).
 Proof. vm_compute. repeat split. Qed.
+
+(* the same with ANY column subset (none, or a flag per column in the caller's memory: sv / flags_in): the columns the subset
+   leaves out are skipped by sbdf_cs_skip and their slots stay empty; every failure - in a read or a skipped column - releases
+   everything through sbdf_ts_destroy (read columns once each, empty slots as no-ops), every success is releasable by one
+   sbdf_ts_destroy; colsf_nobit / colsf_end follow the model's readers and skippers along the columns; without allocation
+   failures the status is ts_st (C09_source_ts_read_status_is_the_models). *)
+Theorem C12_source_ts_read_subset : forall rf rp fo po k sx m (h : heap) tmb n sub, Forall byte sx -> 0 <= n <= 715827882 -> cell_get h tmb 1 = Some (VInt n) -> flags_in n sub m ->
+  (forall s1 s2, sec_read sx = Ok (3, s1) -> read_int32 false s1 = Ok (n, s2) -> colsf_nobit sub (Z.to_nat n) 0 s2) ->
+  exists f0, forall f, (f0 <= f)%nat -> exists st fin,
+    callC prog_env f prog_sbdf_ts_read [VPtr rf fo; VCell tmb 0; sv sub; VPtr rp po] m k sx h = OReturn (VInt st) fin /\ prefix_of m (inb fin) /\ ts_frame_status n sx st /\
+    ((st = SBDF_OK /\ Imp.lookup "*out" (vars fin) = Some (VCell (List.length h) 0) /\
+        (exists s1 s2 s', sec_read sx = Ok (3, s1) /\ read_int32 false s1 = Ok (n, s2) /\ colsf_end sub (Z.to_nat n) 0 s2 = Some s' /\ Imp.lookup strm_var (vars fin) = Some (VBytes s')) /\
+        exists hnew, Imp.lookup cells_var (vars fin) = Some (VHeap (h ++ hnew)) /\ (2 <= List.length hnew)%nat /\
+          forall k' s', exists f1, forall g, (f1 <= g)%nat -> exists fin2,
+            callC prog_env g prog_sbdf_ts_destroy [VCell (List.length h) 0] (inb fin) k' s' (h ++ hnew) = ONormal fin2 /\
+            inb fin2 = inb fin /\ Imp.lookup cells_var (vars fin2) = Some (VHeap (h ++ nones (List.length hnew))))
+     \/ (st < 0 /\ Imp.lookup "*out" (vars fin) = Some VUndef /\ exists j, Imp.lookup cells_var (vars fin) = Some (VHeap (h ++ nones j)))) /\
+    (k < 0 -> st = ts_st n sub sx).
+Proof. exact ts_read_sub_source. Qed.
+Print Assumptions C12_source_ts_read_subset.
